@@ -15,8 +15,8 @@ use uuid::Uuid;
 
 use crate::error::MapRedisError;
 use crate::parser::{
-    FrameStream, data, event_id, expected_version, keyword, number_u64, partition_key, stream_id,
-    string,
+    FrameStream, data, event_id, event_name, expected_version, keyword, number_u64, partition_key,
+    stream_id,
 };
 use crate::request::{HandleRequest, map, number, simple_str};
 use crate::server::Conn;
@@ -98,7 +98,7 @@ impl EAppend {
     pub fn parser<'a>() -> impl Parser<FrameStream<'a>, Output = EAppend> + 'a {
         (
             stream_id(),
-            string().expected("event name"),
+            event_name(),
             many::<Vec<_>, _, _>(OptionalArg::parser()),
         )
             .and_then(|(stream_id, event_name, args)| {
